@@ -116,8 +116,8 @@ def valuations(names, atoms):
         yield dict(zip(names, combo))
 
 
-def run_paths(model, thunk, max_paths=32, max_steps=400000):
-    return list(explore(model, thunk, max_paths=max_paths, max_steps=max_steps))
+def run_paths(model, thunk, max_paths=32, max_steps=400000, generic_only=False):
+    return list(explore(model, thunk, max_paths=max_paths, max_steps=max_steps, generic_only=generic_only))
 
 
 def describe_val(val: dict) -> str:
